@@ -4,7 +4,8 @@ import Litep2pVerif.Model.Notif.Sys
 Line-protocol driver of the notification model (C11). The driver plays the same environment as the
 adapter src/verif/c11.rs: the transport, the remote end of every in-memory pipe, the user of the handle,
 and the scheduler (protocol loop with its biased order of sources, then the connection tasks, until
-nothing is runnable). The per-peer protocol state is changed only through `PeerSys.step`, i.e. every run
+nothing is runnable; `hold p` / `unhold p` keep the tasks of a peer from being polled for a while — a held task is
+an ordinary not-yet-scheduled task of the transition system: no label of it is taken, nothing else is assumed). The per-peer protocol state is changed only through `PeerSys.step`, i.e. every run
 of the driver is an execution of the transition system the theorems quantify over.
 -/
 namespace Litep2pVerif.Driver.C11
@@ -19,6 +20,8 @@ structure PipeSt where
   toRemote : List (List Nat) := []
   stall : Bool := false
   localClosed : Bool := false
+  /-- a `close()` of this pipe has been suspended by `stall` (reported once) -/
+  stallSeen : Bool := false
 
 structure ConnInfo where
   gen : Nat
@@ -39,6 +42,8 @@ structure TaskAux where
   queue : List (List Nat) := []
   sinkDropped : Bool := false
   woken : Bool := true
+  /-- not scheduled for the time being (`hold`): stays woken, is not polled -/
+  held : Bool := false
 
 structure World where
   auto : Bool := false
@@ -65,6 +70,7 @@ structure World where
   hsToSend : List (Nat × Dir) := []
   taux : List TaskAux := []
   calls : List String := []
+  stalledQ : List (Nat × Nat) := []         -- (pipe, peer): closes suspended by `stall` during this op
   panicked : Bool := false
   configured : Bool := false
 
@@ -280,6 +286,12 @@ def setAux (w : World) (t : Tid) (f : TaskAux → TaskAux) : World :=
 
 def taskOf (w : World) (a : TaskAux) : Option Task := (getPeer w a.peer).tasks.find? (·.id = a.id)
 
+/-- A `close()` found its pipe stalled: reported the first time. -/
+def noteStall (w : World) (k : Nat) : World :=
+  let x := pipeGet w k
+  if x.stallSeen then w
+  else { pipeSet w k (fun x => { x with stallSeen := true }) with stalledQ := w.stalledQ ++ [(k, x.peer)] }
+
 /-- Poll one woken task (fuel bounds the `start()` loop). -/
 def pollTask (w : World) (t : Tid) : Nat → World
   | 0 => w
@@ -317,11 +329,11 @@ def pollTask (w : World) (t : Tid) : Nat → World
                   if pi.remoteClosed then pollTask (actTask w p (.taskSeesClose t)) t fuel else w
       | .closing _ =>
         let pi := pipeGet w k.inPipe
-        if pi.stall && !pi.localClosed then w
+        if pi.stall && !pi.localClosed then noteStall w k.inPipe
         else
           let w := pipeSet w k.inPipe fun x => { x with localClosed := true }
           let po := pipeGet w k.outPipe
-          if po.stall && !po.localClosed then w
+          if po.stall && !po.localClosed then noteStall w k.outPipe
           else
             let w := pipeSet w k.outPipe fun x => { x with localClosed := true }
             let notify := k.phase = .closing true
@@ -338,7 +350,7 @@ def pollTasks (w : World) : World × Bool := Id.run do
   for a in w.taux do
     match auxOf w a.id with
     | some cur =>
-      if cur.woken then
+      if cur.woken && !cur.held then
         any := true
         w := setAux w a.id fun x => { x with woken := false }
         w := pollTask w a.id 64
@@ -376,10 +388,12 @@ def wakeClosingTasksOfPipe (w : World) (k : Nat) : World :=
 -- ---------------------------------------------------------------- printing
 
 def finish (w : World) (res : String) : World × String :=
-  if w.panicked then ({ w with calls := [] }, "panic debug-assert")
+  if w.panicked then ({ w with calls := [], stalledQ := [] }, "panic debug-assert")
   else
-    let out := if w.calls.isEmpty then res else res ++ " " ++ joinWith " " w.calls
-    ({ w with calls := [] }, out)
+    let stalled := (w.stalledQ.mergeSort (fun a b => a.1 ≤ b.1)).map fun (_, p) => s!"stalled({p})"
+    let all := w.calls ++ stalled
+    let out := if all.isEmpty then res else res ++ " " ++ joinWith " " all
+    ({ w with calls := [], stalledQ := [] }, out)
 
 def run (w : World) (res : String) : World × String := finish (settle w 64) res
 
@@ -567,6 +581,12 @@ def step (w : World) (line : String) : World × String :=
             run w s!"[{joinWith " " (frames.map bytesHex)}]"
       | [] => (w, "bad-op")
     else if !rest.isEmpty && op ≠ "send" then (w, "bad-op")
+    else if op = "hold" then
+      -- the connection tasks the peer has now are not polled until `unhold`
+      let n := (w.taux.filter (·.peer = p)).length
+      ({ w with taux := w.taux.map fun a => if a.peer = p then { a with held := true } else a }, s!"ok held={n}")
+    else if op = "unhold" then
+      run { w with taux := w.taux.map fun a => if a.peer = p then { a with held := false } else a } "ok"
     else if op = "timer" then
       run { w with readyTimers := w.readyTimers ++ [p] } "ok"
     else if op = "open" then
